@@ -30,11 +30,15 @@ def run(tier, replay=None):
     withpar = [b for b in bases.sub_bases() if "a" in b[0]]
     sub = withpar[rng.randrange(len(withpar))]
     if tier == "quick":
-        plans = [("core_maths", 3, None, [2, 5, 8, 16]), ("core_maths", 4, None, [3, 7]), ("verif_c13", 3, sub, [3])]
+        plans = [("core_maths", 3, None, [2, 5, 8, 16]), ("core_maths", 4, None, [3, 7]), ("verif_c13", 3, sub, [3]),
+                 ("base_e_maths", 4, None, [2, 3]),                                  # smallest shipped library in which check_results un-merges functions on several ranks
+                 ("verif_small", 3, [["x", "a"], ["inv"], ["+", "*", "/"]], [13, 16])]  # more ranks than functions of a shape (12 per shape)
     else:
         plans = [("core_maths", 2, None, [2, 3, 8]), ("core_maths", 3, None, [2, 3, 4, 5, 7, 8, 16]), ("core_maths", 4, None, [2, 3, 5, 8, 16]),
                  ("core_maths", 5, None, [3, 7, 16]), ("ext_maths", 3, None, [4, 16]), ("ext_maths", 4, None, [3, 5]),
-                 ("verif_c13", 4, sub, [3, 8]), ("verif_c13b", 3, withpar[(rng.randrange(len(withpar)) + 5) % len(withpar)], [5, 16])]
+                 ("verif_c13", 4, sub, [3, 8]), ("verif_c13b", 3, withpar[(rng.randrange(len(withpar)) + 5) % len(withpar)], [5, 16]),
+                 ("base_e_maths", 4, None, [2, 3, 4, 5]), ("keep_duplicates", 4, None, [3, 4]),
+                 ("verif_small", 3, [["x", "a"], ["inv"], ["+", "*", "/"]], [5, 12, 13, 16]), ("verif_small", 4, [["x", "a"], ["inv"], ["+", "*", "/"]], [13, 16])]
     plans.append(("verif_noparam", 3, [["x"], ["inv"], ["+", "pow"]], []))      # known finding: parameter-free basis
     for name, n, basis, Ps in plans:
         ref, _ = common.gen_library(r, s1, name, n, basis=basis)
